@@ -49,6 +49,70 @@ def check(run, prog, tier):
 
 
 # ----------------------------------------------------------------------
+    run.rule("C09-H", "the recorded components belong to the object: constructors keep their own parameter containers, "
+                      "and methods that answer a question (get_*, copy, +) do not write into the stored dictionaries", minimum=20)
+    rule_H(run, prog)
+
+
+def rule_H(run, prog):
+    """'Carry consistent parameters': params is the record of the components the data are the sum of.  It stays
+    consistent only if nobody else holds the same list or the same dictionaries (an addition to a derived object
+    would add a component here) and if asking for a correlation function at another temperature does not rewrite
+    the record (a refused mixed-temperature sum would be accepted at the second attempt)."""
+    rid = "C09-H"
+    n = 0
+    for cls_q, cname in ((CF + "CorrelationFunction", "CorrelationFunction"), (SD + "SpectralDensity", "SpectralDensity"),
+                         (CF + "FTCorrelationFunction", "FTCorrelationFunction"),
+                         (CF + "OddFTCorrelationFunction", "OddFTCorrelationFunction"),
+                         (CF + "EvenFTCorrelationFunction", "EvenFTCorrelationFunction")):
+        cls = prog.cls(cls_q)
+        for nme, fn in sorted(cls.methods.items()):
+            prog.consulted.add(fn.relpath)
+            params = [a.arg for a in fn.node.args.args if a.arg != "self"]
+            # (i) constructors: self.params = <a parameter itself>
+            if nme == "__init__":
+                shared = [n_ for n_ in walk_no_nested(fn.node) if isinstance(n_, ast.Assign)
+                          and any(norm(t_) == "self.params" for t_ in n_.targets)
+                          and isinstance(n_.value, ast.Name) and n_.value.id in params]
+                n += 1
+                run.obligation(rid, "%s.__init__" % cname, not shared, key="own-container",
+                               message="the constructor keeps the caller's parameter list itself (%s): the new object and "
+                                       "whoever supplied the list record components in the same container"
+                                       % (norm(shared[0]) if shared else ""), loc=fn.loc(shared[0]) if shared else fn.loc())
+                continue
+            # (ii) question-answering methods do not write into stored dictionaries
+            if not (nme.startswith("get_") or nme in ("copy", "__add__", "is_analytical", "measure_reorganization_energy",
+                                                      "reorganization_energy_consistent")):
+                continue
+            # names bound to stored dictionaries: loop variables over self.params (not rebound to a copy before the write)
+            bad = []
+            for lp in [x for x in walk_no_nested(fn.node) if isinstance(x, ast.For) and norm(x.iter).endswith(".params")
+                       and isinstance(x.target, ast.Name)]:
+                v = lp.target.id
+                rebound_at = min([a_.lineno for a_ in ast.walk(lp) if isinstance(a_, ast.Assign)
+                                  and any(isinstance(t_, ast.Name) and t_.id == v for t_ in a_.targets)] or [10**9])
+                for a_ in ast.walk(lp):
+                    if isinstance(a_, (ast.Assign, ast.AugAssign)):
+                        for t_ in (a_.targets if isinstance(a_, ast.Assign) else [a_.target]):
+                            if isinstance(t_, ast.Subscript) and isinstance(t_.value, ast.Name) and t_.value.id == v \
+                                    and a_.lineno < rebound_at:
+                                bad.append(a_)
+                    if isinstance(a_, ast.Call) and isinstance(a_.func, ast.Attribute) and isinstance(a_.func.value, ast.Name) \
+                            and a_.func.value.id == v and a_.func.attr in ("update", "pop", "clear", "setdefault") \
+                            and a_.lineno < rebound_at:
+                        bad.append(a_)
+            for a_ in walk_no_nested(fn.node):
+                if isinstance(a_, ast.Assign):
+                    for t_ in a_.targets:
+                        if isinstance(t_, ast.Subscript) and norm(t_).startswith("self.params["):
+                            bad.append(a_)
+            n += 1
+            run.obligation(rid, "%s.%s" % (cname, nme), not bad, key="record-intact",
+                           message="%s.%s writes into the stored parameter dictionaries (%s): the record of the components is "
+                                   "changed by a query, and by every object that shares the dictionaries"
+                                   % (cname, nme, norm(bad[0])[:60] if bad else ""), loc=fn.loc(bad[0]) if bad else fn.loc())
+    if n < 20:
+        raise AnalysisError("C09-H: only %d constructors/queries of bath functions examined" % n)
 
 
 def _bound_in(node):
